@@ -14,7 +14,7 @@ def run(ctx):
     trace = os.path.join(ctx.work, "hook_trace.ndjson")
     ctx.assumptions += ["which deferred call's error wins when several fail, finally after a failing catch and finally on a control transfer are left open by the statement",
                         "runtime error messages are compared by class only; messages of thrown values are compared exactly"]
-    fams = [("c09-templates", progs.fam_c09()), ("c09-nest", progs.fam_c08(2, wraps=[progs.w_try, progs.w_catch, progs.w_func, progs.w_func_arg, progs.w_forin, progs.w_if_then])),
+    fams = [("c09-templates", progs.fam_c09()), ("c09-nest", progs.fam_c08(2, wraps=[progs.w_try, progs.w_catch, progs.w_func, progs.w_func_arg, progs.w_forin, progs.w_forchan, progs.w_cfor, progs.w_switch_case, progs.w_if_then])),
             ("c09-rand", progs.rand_programs(ctx.seed + 13, 500 if ctx.quick() else 8000, maxdepth=4 if ctx.quick() else 5)),
             ("c09-rand2", progs.rand2_programs(ctx.seed + 113, 400 if ctx.quick() else 6000))]
     for tag, fam in fams:
